@@ -425,6 +425,17 @@ def c05_cases(tier, seed):
             roles[(None, ("f%d" % k,))] = "plural_fk_literal_count:%s" % rule
             roles[(None, ("g%d" % k,))] = "plural_fk_renamed_count:%s" % rule
         cases.append(Case(Project(default, locales, files), "c05_plurals/%d" % pi, roles=roles))
+    # base keys that look like plural / ordinal markers themselves
+    tricky = {}
+    for l in ["en", "fr", "ru"]:
+        tricky[l] = {
+            "non_ordinal_points": PLURAL("cardinal", {"one": S(l + " point ", V("count")), "other": S(l + " points ", V("count"))}),
+            "a_one_b": PLURAL("cardinal", {"one": S(l + " a1b"), "few": S(l + " afb"), "other": S(l + " aob ", V("count"))}),
+            "rank_other_x": PLURAL("ordinal", {"one": S(l + " 1st"), "two": S(l + " 2nd"), "other": S(l + " nth ", V("count"))}),
+            "plain_one": S(l + " not a plural: lone form"),           # a single `_one` key without `_other` stays a normal key
+            "ordinal": PLURAL("cardinal", {"one": S(l + " o1"), "other": S(l + " oo")}),
+        }
+    cases.insert(0, Case(Project("en", ["en", "fr", "ru"], tricky), "c05_tricky_names/0", roles={"*": "plural_tricky_names"}))
     # two locales of one language whose CLDR rules differ (pt: one <- i = 0..1, pt-PT: one <- i = 1 and v = 0)
     files = {l: {"p": PLURAL("cardinal", {"one": S(l + " one ", V("count")), "other": S(l + " other ", V("count"))}),
                  "o": PLURAL("ordinal", {"one": S(l + " 1st"), "two": S(l + " 2nd"), "few": S(l + " 3rd"), "other": S(l + " nth ", V("count"))})}
